@@ -111,6 +111,7 @@ func (r *Runtime) arrayBufferProto_getByteLength(call FunctionCall) Value {
 func (r *Runtime) arrayBufferProto_slice(call FunctionCall) Value {
 	o := r.toObject(call.This)
 	if b, ok := o.self.(*arrayBufferObject); ok {
+		b.ensureNotDetached(true)
 		l := int64(len(b.data))
 		start := relToIdx(call.Argument(0).ToInteger(), l)
 		var stop int64
@@ -123,15 +124,15 @@ func (r *Runtime) arrayBufferProto_slice(call FunctionCall) Value {
 		newLen := max(stop-start, 0)
 		ret := r.speciesConstructor(o, r.getArrayBuffer())([]Value{intToValue(newLen)}, nil)
 		if ab, ok := ret.self.(*arrayBufferObject); ok {
+			ab.ensureNotDetached(true)
+			if ret == o {
+				panic(r.NewTypeError("Species constructor returned the same ArrayBuffer"))
+			}
+			if int64(len(ab.data)) < newLen {
+				panic(r.NewTypeError("Species constructor returned an ArrayBuffer that is too small: %d", len(ab.data)))
+			}
+			b.ensureNotDetached(true)
 			if newLen > 0 {
-				b.ensureNotDetached(true)
-				if ret == o {
-					panic(r.NewTypeError("Species constructor returned the same ArrayBuffer"))
-				}
-				if int64(len(ab.data)) < newLen {
-					panic(r.NewTypeError("Species constructor returned an ArrayBuffer that is too small: %d", len(ab.data)))
-				}
-				ab.ensureNotDetached(true)
 				copy(ab.data, b.data[start:stop])
 			}
 			return ret
